@@ -152,12 +152,35 @@ async fn pipe_case(run: usize, gen: &mut Gen, out: &mut Out) {
             _ => cmds.push(pipe_command(gen)),
         }
     }
-    let malformed = gen.rng.gen_range(0..8) == 0;
+    let which = gen.rng.gen_range(0..16);
+    let malformed = which < 2;
+    let damaged = (2..5).contains(&which);
     let mut bytes = Vec::new();
     for (_, argv) in &cmds {
         bytes.extend(encode_argv(argv));
     }
     let bad_at = cmds.len();
+    let mut junk: Vec<u8> = Vec::new();
+    if damaged {
+        // a well-formed frame damaged in one place; the specification (Resp!Decode) decides what it has become
+        let victim: Argv = match gen.rng.gen_range(0..3) { 0 => vec![b("PING")], 1 => vec![b("GET"), b("k")], _ => vec![b("SET"), b("k"), b("hello")] };
+        let mut f = encode_argv(&victim);
+        let crs: Vec<usize> = (0..f.len()).filter(|i| f[*i] == b'\r').collect();
+        match gen.rng.gen_range(0..9) {
+            8 => { if f.len() > 13 { f.insert(13, b'\r'); } }                                            // one stray byte after the command header
+            0 => { let i = crs[gen.rng.gen_range(0..crs.len())]; f.remove(i); }                       // bare LF
+            1 => { let i = crs[gen.rng.gen_range(0..crs.len())]; f.remove(i + 1); }                   // bare CR
+            2 => { let i = gen.rng.gen_range(1..f.len()); f.remove(i); }                               // a byte lost
+            3 => { let i = gen.rng.gen_range(0..f.len()); f[i] = b'x'; }                               // a byte changed
+            4 => { let i = gen.rng.gen_range(0..f.len()); f.insert(i, 0); }                            // a NUL inserted
+            5 => { f[1] = b'-'; }                                                                       // negative count
+            6 => { let i = gen.rng.gen_range(0..f.len()); f[i] = b'\n'; }
+            _ => { let i = gen.rng.gen_range(0..f.len()); f.insert(i, b'\r'); }
+        }
+        junk = f;
+        junk.extend(encode_argv(&vec![b("PING")]));
+        bytes.extend_from_slice(&junk);
+    }
     if malformed {
         let junk: [&[u8]; 5] = [b"*2\r\n$3\r\nGET\r\n:x\r\n", b"!bogus\r\n", b"*1\r\n$-5\r\n", b"$abc\r\n", b"*2\r\n$3\r\nGET\r\n$-2\r\n"];
         bytes.extend_from_slice(junk[gen.rng.gen_range(0..5)]);
@@ -192,7 +215,7 @@ async fn pipe_case(run: usize, gen: &mut Gen, out: &mut Out) {
         "cfg": {"min_pipeline_buffer": cfg.min_pipeline_buffer, "batch_threshold": cfg.batch_threshold},
         "cmds": cmds.iter().map(|(c, _)| c.clone()).collect::<Vec<_>>(),
         "argv": cmds.iter().map(|(_, a)| a.iter().map(|x| String::from_utf8_lossy(x).to_string()).collect::<Vec<_>>()).collect::<Vec<_>>(),
-        "malformed": malformed, "bad_at": bad_at, "nsegs": nsegs, "nbytes": bytes.len(),
+        "malformed": malformed, "junk": junk, "bad_at": bad_at, "nsegs": nsegs, "nbytes": bytes.len(),
         "replies": replies.iter().map(rv_json).collect::<Vec<_>>(), "undecoded": left, "s": final_s}));
 }
 
